@@ -92,10 +92,12 @@ CHARREADER_TEST = r'''
 #[cfg(test)]
 mod verif_replay {
     use super::*;
-    struct Chunks { data: Vec<Vec<u8>>, i: usize }
+    // `fail` marks chunks whose first read attempt fails with an I/O error (the data arrives at the retry)
+    struct Chunks { data: Vec<Vec<u8>>, i: usize, fail: Vec<bool> }
     impl Read for Chunks {
         fn read(&mut self, buf: &mut [u8]) -> io::Result<usize> {
             if self.i >= self.data.len() { return Ok(0); }
+            if self.i < self.fail.len() && self.fail[self.i] { self.fail[self.i] = false; return Err(io::Error::new(io::ErrorKind::Other, "injected")); }
             let c = &self.data[self.i]; self.i += 1;
             buf[..c.len()].copy_from_slice(c); Ok(c.len())
         }
@@ -117,18 +119,21 @@ mod verif_replay {
         }
         out
     }
-    fn run(bytes: &[u8], cuts: &[usize], putback: bool) -> Result<Vec<String>, ()> {
+    fn run(bytes: &[u8], cuts: &[usize], putback: bool) -> Result<Vec<String>, ()> { run_f(bytes, cuts, putback, false) }
+    fn run_f(bytes: &[u8], cuts: &[usize], putback: bool, failing: bool) -> Result<Vec<String>, ()> {
         let mut chunks = vec![]; let mut s = 0;
         for &c in cuts { if c > s && c < bytes.len() { chunks.push(bytes[s..c].to_vec()); s = c; } }
         chunks.push(bytes[s..].to_vec());
         std::panic::catch_unwind(move || {
-            let mut rd = CharReader::new(Chunks { data: chunks, i: 0 });
+            let nchunks = chunks.len();
+            let mut rd = CharReader::new(Chunks { data: chunks, i: 0, fail: if failing { vec![true; nchunks] } else { vec![] } });
             let mut out = vec![];
-            for _ in 0..40 {
+            for _ in 0..80 {
                 if putback { if let Some(Ok(c)) = rd.peek_char() { let _ = rd.read_char(); rd.put_back_char(c); } }
                 match rd.read_char() {
                     None => break,
                     Some(Ok(c)) => out.push(format!("{:?}", c)),
+                    Some(Err(e)) if e.kind() == io::ErrorKind::Other && e.get_ref().map(|x| x.to_string()) == Some("injected".to_string()) => { continue; }
                     Some(Err(e)) => {
                         let n = e.get_ref().and_then(|x| x.downcast_ref::<BadUtf8Error>()).map(|b| b.bytes.clone()).unwrap_or_default();
                         out.push(format!("ERR{:?}", n)); rd.consume(n.len().max(1));
@@ -157,6 +162,17 @@ mod verif_replay {
                         if !ok && fails < 12 {
                             fails += 1;
                             println!("REPLAY-FAIL bytes {:?} split at {:?} putback={}: got {} expected {:?}", v, cuts, pb,
+                                     match &got { Ok(g) => format!("{:?}", g), Err(_) => "PANIC".to_string() }, expect);
+                        }
+                    }
+                    if fails >= 12 { return; }
+                    // a failed read must deliver nothing: every chunk's first read attempt fails, the retry succeeds
+                    if len <= 4 {
+                        let got = run_f(&v, &cuts, false, true);
+                        let ok = match &got { Ok(g) => *g == expect, Err(_) => false };
+                        if !ok && fails < 12 {
+                            fails += 1;
+                            println!("REPLAY-FAIL bytes {:?} split at {:?}, first read of every chunk fails with an I/O error: got {} expected {:?}", v, cuts,
                                      match &got { Ok(g) => format!("{:?}", g), Err(_) => "PANIC".to_string() }, expect);
                         }
                     }
